@@ -584,6 +584,8 @@ const MONADIC: &[&str] = &[
     "↙2", "↙¯2", "↘1", "↘¯1", "↻1", "↻¯1", "▽2", "⊏0", "⊡0", "↯[2 ¯1]", "↯5", "⊂1", "⊂⊙1", "⊟.", "˜⊂.", "⊂.", "+1", "×2", "÷2", "+0.5", "=1", "<2", "↥1", "↧1", "◿2",
     "⬚0↙5", "⬚⌞0↙5", "⬚⌟0↙5", "⬚0↙¯5", "⬚⌞0↙¯5", "⬚0↯7", "⬚⌞0↯7", "⬚0↯[3 3]", "⬚⌞0↯[3 3]", "⬚0↯[2 2 2]", "⬚0↻2", "⬚0⊡7", "⬚0⊏[0 9]",
     "≡(⬚0↙4)", "≡(⬚⌞0↙4)", "≡(⬚⌞0↯5)", "⍚(⬚⌞0↙4)", "⬚⌞0↙4⊢", "⬚⌞0↙4⊣", "⬚⌞0↙4↘1", "⬚⌞0↯5↘1", "⬚⌞0↯5⊣", "⬚⌞0↙6♭↘1", "⊜□⊸≠0", "⊕□⊸⊛", "⧈+", "⧈□2", "∊⊸⇌", "⊗⊸⇌", "⍣(⊢)0", "°⊚⊚",
+    // pervasive maths whose byte and float kernels are different functions
+    "ₑ", "ₑ₂", "ₑ₁₀", "°ₑ", "°ₑ₂", "°ₑ₁₀", "√₃", "ⁿ2", "ⁿ0.5", "˜ⁿ2", "˜ⁿ10", "˜ⁿ3.25", "°√", "°∿", "∠1", "˜∠1", "⁅₂", "÷3", "˜÷3", "˜◿7", "˜-1", "⌵¯", "×0.1", "⍜+(×2)1",
 ];
 
 const DYADIC: &[&str] = &[
@@ -979,6 +981,9 @@ fn leftfill() {
         ("reduce-minmax-byte-empty-rows", "≡/× ≡(↘2) =1[1_0 0_1]", "[1 1]"),
         // open: integer exponent stored as byte uses powi, as float powf
         ("pow-byte-exponent-powi", "ⁿ 224 3.25", "ⁿ ÷2 448 3.25"),
+        // open: 10^n of a byte uses powi, of a float powf (1 ulp apart for most n >= 23)
+        ("exp10-byte-powi", "ₑ₁₀ 23", "ₑ₁₀ ÷2 46"),
+        ("exp10-byte-powi", "ₑ₁₀ ⇡31", "ₑ₁₀ ÷2×2⇡31"),
         // controls: the same operations on shared or full buffers, and right fills
         ("control", "⬚⌞0↙4 ↘1 [1 2 3]", "[0 0 2 3]"),
         ("control", "⬚0↙4 ↘2 +0.5⇡4", "[2.5 3.5 0 0]"),
